@@ -156,10 +156,10 @@ example : (MergeTree.node .new (.node (.part 1) (.part 0))).leaves.Perm (List.ra
 
 /-- the scan visits every message of the stream exactly once, in order, with its decoded
     headers: for a stream that is the concatenation of well-formed messages (all with / all
-    without storage header) the collector is handed exactly `statOf m1, .., statOf mk` -/
+    without storage header) the collector is handed exactly the Spec's reading of the headers of `m1, .., mk` -/
 theorem C10_visit (w : Bool) (ms : List Message)
     (hms : ∀ x ∈ ms, x.wf = true ∧ x.storageHeader.isSome = w) :
-    visit w (ms.map Message.asBytes).flatten = some (ms.map statOf) := by
+    visit w (ms.map Message.asBytes).flatten = some (ms.map Spec.statisticOfMessage) := by
   rw [visit_eq]
   induction ms with
   | nil => rfl
@@ -181,7 +181,7 @@ theorem C10_visit_cut (w : Bool) (bs : Bytes) : visit w bs = visitPieces w (Spec
 theorem C10_stream_tally (w : Bool) (ms : List Message)
     (hms : ∀ x ∈ ms, x.wf = true ∧ x.storageHeader.isSome = w) (k : Keying) (id : Bytes) (b : Bucket) :
     (visit w (ms.map Message.asBytes).flatten).map (fun sts => lookup (mapOf k (collectInfo sts)) id b)
-      = some (tally k (ms.map statOf) id b) := by
+      = some (tally k (ms.map Spec.statisticOfMessage) id b) := by
   rw [C10_visit w ms hms]
   simp only [Option.map_some]
   rw [(C10_tally (ms.map statOf) k id b).1]
